@@ -141,7 +141,7 @@ void check_C20(Src &s, Ctx &ctx) {
             if (has(E_SWITCH_OBJ) && ctx.excl("C20-objective-switch-swarm-best-not-reelected")) { std::replace(plan.begin(), plan.end(), (int)E_SWITCH_OBJ, (int)E_CLEAR_CACHE); }
             if (has(E_CLEAR_BEST) && !clears && model_cache_init && ctx.excl("C20-clearBestParticles-keeps-best-cache")) { plan.push_back(E_CLEAR_CACHE); clears = true; }
             if (has(E_SET_BEST) && !clears && model_cache_init && ctx.excl("C20-setBestParticlePositions-keeps-stale-cache")) { plan.push_back(E_CLEAR_CACHE); clears = true; }
-            if (has(E_SET_POS) && !clears && model_cache_init && (has(E_CLEAR_BEST) || has(E_SET_BEST)) && ctx.excl("C20-setParticlePositions-keeps-stale-cache")) { plan.push_back(E_CLEAR_CACHE); clears = true; }
+            if (has(E_SET_POS) && !clears && model_cache_init && ctx.excl("C20-setParticlePositions-keeps-stale-cache"))   /* the stale values survive until the next evaluation, also across later edit rounds */ { plan.push_back(E_CLEAR_CACHE); clears = true; }
             if (clears && !has(E_CLEAR_BEST) && !has(E_SET_BEST) && state.isBestPositionInitialized()) {
                 Vec B = state.getBestParticlePositions(); bool revive = false;
                 for (size_t i = 0; i <= P; i++) { bool valid = i < P ? pb[i].valid : sb.valid; if (!valid && S.inside(rowp(B, i))) revive = true; }
